@@ -52,3 +52,13 @@ func VerifPrefilled(slots int, keys []*rt.GoType, vals []interface{}) *ProgramCa
 	atomic.StorePointer(&pc.p, unsafe.Pointer(m))
 	return pc
 }
+
+// VerifSnapshot / VerifRestore: the published map is immutable (every add publishes a
+// copy), so a snapshot is the pointer itself and restoring it is O(1).
+func (self *ProgramCache) VerifSnapshot() unsafe.Pointer { return atomic.LoadPointer(&self.p) }
+
+func (self *ProgramCache) VerifRestore(p unsafe.Pointer) {
+	self.m.Lock()
+	atomic.StorePointer(&self.p, p)
+	self.m.Unlock()
+}
